@@ -643,6 +643,7 @@ template <class Mesh> struct HistRun {
         else if (k == "BU") ow_struct = {"C12"};
         else if (has("SET_")) ow_struct = {"C01"};
         else if (has("P_")) ow_struct = {"C14"};
+        else if (k == "P_POS_PERSIST") { ow_struct = {"C13", "C14"}; }
         else if (has("FORK") || k == "DESTROY" || k == "USE") { ow_struct = {"C13"}; ow_props.push_back("C13"); }
         else if (k == "COLLAPSE") ow_struct = {"C15"};
         else if (k == "RESTART" || k == "ROUNDTRIP" || k == "BIG" || k == "SET_POS" || k == "OPEN_CELL") ow_struct = {"C06"};
